@@ -27,10 +27,13 @@ from lx.tree import Names
 PID = "C05"
 BOUNDS = ("split kernel: up to 5 pieces, each of 3 kinds, statement texts symbolic (3 characters); assembly: scripts of 2-4 statements from a "
           "pool of 9 (INSERT, CTAS, bare SELECT, SELECT INTO, DROP, ALTER..RENAME, INSERT VALUES, CREATE VIEW, UPDATE) under ansi / postgres / "
-          "tsql, all table names free (2 characters); tsql no-semicolon mode with 2-3 statements incl. textually equal ones. The placement "
+          "tsql, all table names free (2 characters), also with the first statement's text recurring after a RENAME / DROP; tsql no-semicolon mode with 2-3 "
+          "statements incl. textually equal ones, separated by line breaks, GO batch separators or semicolons at chosen positions (ROOT mode: the real statement "
+          "listing on the whole script's parse tree). The placement "
           "of cuts in text is NOT claimed")
 STUBS = ["sqlparse.parse as seen by helpers.split (split kernel only) -> symbolic list of statement stubs (token_first / ttype / value API)",
-         "sqllineage.runner.split / SqlFluffLineageAnalyzer._list_specific_statement_segment (parser boundary) elsewhere"]
+         "sqllineage.runner.split / SqlFluffLineageAnalyzer._list_specific_statement_segment (parser boundary) elsewhere; in T-SQL no-semicolon mode only "
+         "sqlfluff's Linter as seen by the analyzer module is replaced (it hands out the pre-parsed, symbolised root segment of the whole script)"]
 ASSUMPTIONS = ["sqlparse cuts text at top-level ';' and sqlfluff splits T-SQL batches as parsed for the placeholder text",
                "statement holders of single-statement runs are read through runner._stmt_holders"]
 
